@@ -296,7 +296,7 @@ def live_case(draw, tier="quick"):
         elif c == 1:
             ops.append({"op": "flag", "m": draw(st.integers(0, nm - 1))})
         elif c == 2 and raw_markets:
-            ops.append({"op": "raw", "m": draw(st.integers(0, raw_markets - 1)), "status": draw(st.sampled_from(["OPEN", "CLOSED", "CLOSED"]))})
+            ops.append({"op": "raw", "m": draw(st.integers(0, raw_markets - 1)), "status": draw(st.sampled_from(["OPEN", "CLOSED", "CLOSED", "DELTA"]))})  # DELTA: a price-only update without a market definition
     return {"markets": markets, "ops": ops, "raw_markets": raw_markets,
             "strategies": draw(st.sampled_from([["ALL"], ["ALL", "SUB0"], ["ALL", "EMPTY"], ["ALL", "SUB0", "EMPTY"]])),
             "raise_on_simulated": False}
@@ -449,6 +449,9 @@ def check_live(c):
             elif op["op"] == "raw":
                 mid = "1.9%08d" % op["m"]
                 datum = {"id": mid, "marketDefinition": {"status": op["status"], "runners": []}, "rc": []}
+                if op["status"] == "DELTA":
+                    datum = {"id": mid, "rc": [{"id": 1, "ltp": 2.0}]}
+                    classes.add("recorder-delta-without-definition")
                 known_before = mid in fw.markets.markets
                 was_closed = known_before and fw.markets.markets[mid].closed
                 fw._process_raw_data(events.RawDataEvent((RAW_UID, "clk", 1, [datum])))
